@@ -1020,7 +1020,13 @@ func c26TwoTx(r *mc.R, st *c26Stats) {
 		}
 	}
 	r.Bound("twotx.first_units", n1)
-	r.Bound("twotx.second_units", len(us))
+	n2 := 0
+	for i := range us {
+		if !r.Quick() || c26StateChanging(us[i].name) || c26Observing(us[i].name) {
+			n2++
+		}
+	}
+	r.Bound("twotx.second_units", n2)
 	r.Parallel(len(shards), func(si int) {
 		sh := shards[si]
 		base := c26NewPre(c26World([]byte{0}))
